@@ -157,6 +157,7 @@ func (d *gDbc) render(g *G, twin bool) {
 	}
 	w("BA_DEF_ BO_ \"GenMsgSendType\" ENUM \"None\",\"Cyclic\",\"Event\";")
 	w("BA_DEF_ BO_ \"GenMsgCycleTime\" INT 0 100000;")
+	w("BA_DEF_ BO_ \"GenMsgDelayTime\" INT 0 100000;")
 	w("BA_DEF_ SG_ \"GenSigStartValue\" INT 0 0;")
 	type mline struct {
 		mi, si int // si = -1: message-level
@@ -167,6 +168,10 @@ func (d *gDbc) render(g *G, twin bool) {
 		if m.sendType != "" {
 			metaLines = append(metaLines, mline{mi, -1, fmt.Sprintf("BA_ \"GenMsgSendType\" BO_ %d \"%s\";", m.id, m.sendType)})
 			metaLines = append(metaLines, mline{mi, -1, fmt.Sprintf("BA_ \"GenMsgCycleTime\" BO_ %d %d;", m.id, m.cycle)})
+			if m.cycle%30 == 0 {
+				// a minimum delay between transmissions on a third of the messages with a send type
+				metaLines = append(metaLines, mline{mi, -1, fmt.Sprintf("BA_ \"GenMsgDelayTime\" BO_ %d %d;", m.id, 200+m.cycle)})
+			}
 		}
 		for si, s := range m.sigs {
 			if s.hasDef {
@@ -851,6 +856,10 @@ func specialDbcs() []string {
 	// send types and node groups; a message without send type, no nodes
 	add("BO_ 6 MsgF: 8 NodeA\n SG_ SigA : 0|8@1+ (1,0) [0|0] \"\" NodeB\nBO_ 7 MsgG: 8 NodeB\n SG_ SigB : 0|8@1+ (1,0) [0|0] \"\" NodeA,NodeB\nBO_ 8 MsgH: 2 Vector__XXX\n SG_ SigC : 0|8@1+ (1,0) [0|0] \"\" Vector__XXX\n" + attrs +
 		"BA_ \"GenMsgSendType\" BO_ 6 \"Cyclic\";\nBA_ \"GenMsgCycleTime\" BO_ 6 100;\nBA_ \"GenMsgSendType\" BO_ 7 \"Event\";\n")
+	// a minimum delay time on a cyclic and on an event message (the runner-facing glue must not depend on it)
+	add("BO_ 10 MsgJ: 8 NodeA\n SG_ SigA : 0|8@1+ (1,0) [0|0] \"\" NodeB\nBO_ 11 MsgK: 8 NodeB\n SG_ SigB : 0|8@1+ (1,0) [0|0] \"\" NodeA\n" + attrs +
+		"BA_DEF_ BO_ \"GenMsgDelayTime\" INT 0 100000;\nBA_ \"GenMsgSendType\" BO_ 10 \"Cyclic\";\nBA_ \"GenMsgCycleTime\" BO_ 10 100;\nBA_ \"GenMsgDelayTime\" BO_ 10 500;\n" +
+		"BA_ \"GenMsgSendType\" BO_ 11 \"Event\";\nBA_ \"GenMsgDelayTime\" BO_ 11 300;\n")
 	out = append(out, rangeGridDbc(hdr, attrs))
 	out = append(out, "VERSION \"\"\nNS_ :\nBS_:\nBU_:\nBO_ 9 MsgI: 0 Vector__XXX\n")
 	out = append(out, "VERSION \"\"\nNS_ :\nBS_:\nBU_: NodeA\n")
